@@ -286,78 +286,133 @@ def fld_input(ctx):
 
 
 def dec_macro(ctx):
+    """DEC-MACRO: the loop-free part of decode_parts before its main loop and the part after it are folded for every class
+    of leading codewords (236 / 237 / 232 / other / none, followed by 232 / other / none), raw and non-raw, against a model
+    reader; the header, the consumed codewords and the trailer are read off."""
     r = "DEC-MACRO"
     f = ctx.facts()
     fn = "decodation::decode_parts"
     b = f.thir.get(fn)
     need(b, r, fn)
     obs = []
-    lets = {"__noinline__": True}
-    sts = T.stmts(b["body"], lets)
-    # the first-position test
-    idx_match = None
-    idx_loop = None
-    flag = None
-    for i, s in enumerate(sts):
-        if s[0] == "let" and s[3][0] == "match" and idx_match is None:
-            sc = s[3][1]
-            if sc[0] == "call" and sc[1].endswith("Reader::peek") and sc[2][1] == ("lit", 0):
-                idx_match = i
-                flag = s[1]
-        if s[0] == "loop" and idx_loop is None:
-            idx_loop = i
-    need(idx_match is not None, r, fn, "(let <flag> = match data.peek(0) {..})")
-    need(idx_loop is not None, r, fn, "(main loop)")
-    obs.append(Ob(r, "first-position", idx_match < idx_loop, "the macro codeword is only looked for at peek(0) before the main loop"))
-    # arms: raw THIR
-    raw = None
-    for st in b["body"]["stmts"]:
-        if st["k"] == "Let" and st["pat"].get("name") == flag:
-            raw = st["init"]
-    rows = {}
-    for arm in raw["arms"]:
-        p = arm["pat"]
-        key = "_"
-        if p["k"] == "Variant" and p["variant"] == "Some" and p["fields"] and p["fields"][0]["pat"]["k"] == "Const":
-            key = p["fields"][0]["pat"]["val"]
-        heads = [T.sx(c["args"][1]) for c in T.calls(arm["body"]) if T.canon(T.callee_of(c)).endswith("extend_from_slice")]
-        eats = [c for c in T.calls(arm["body"]) if T.canon(T.callee_of(c)).endswith("Reader::eat")]
-        tail = T.strip(arm["body"])
-        val = None
-        if tail["k"] == "Block" and "expr" in tail:
-            val = T.sx(tail["expr"])
-        elif tail["k"] == "Lit":
-            val = T.sx(tail)
-        rows[key] = (heads, len(eats), val)
-    for cw, head in ((236, HEAD05), (237, HEAD06)):
-        h = rows.get(cw)
-        ok = bool(h) and len(h[0]) == 1 and h[0][0][0] == "const" and h[0][0][2] == head and h[1] == 1 and h[2] == ("lit", True)
-        obs.append(Ob(r, "arm:%d" % cw, ok, "codeword %d in first position re-creates its own header, consumes the codeword and requests the trailer" % cw, detail=str(h)[:200]))
-    h = rows.get("_")
-    obs.append(Ob(r, "arm:other", bool(h) and not h[0] and h[1] == 0 and h[2] == ("lit", False), "any other first codeword adds nothing", detail=str(h)[:200]))
-    obs.append(Ob(r, "arms-exact", sorted(str(k) for k in rows) == ["236", "237", "_"], "exactly the arms 236, 237 and default", detail=sorted(str(k) for k in rows)))
-    # trailer iff flag
-    trail = [s for s in sts[idx_loop:] if s[0] == "if" and s[1][:2] == ("var", flag.split("#")[0])]
-    ok = False
-    if len(trail) == 1:
-        ext = [x for st in T.stmt_walk(trail[0][2]) for e in T.stmt_exprs(st) for x in T.sx_calls(e, "extend_from_slice")]
-        ok = len(ext) == 1 and ext[0][2][1][0] == "const" and ext[0][2][1][2] == TRAIL and not trail[0][3]
-        # not nested under another condition
-        direct = [st for st in trail[0][2] if st[0] == "expr" and T.sx_calls(st[1], "extend_from_slice")]
-        ok = ok and len(direct) == 1
-    all_ext = [x for st in T.stmt_walk(sts) for e in T.stmt_exprs(st) for x in T.sx_calls(e, "extend_from_slice") if x[2][1][0] == "const" and x[2][1][2] == TRAIL]
-    obs.append(Ob(r, "trailer-iff", ok and len(all_ext) == 1, "RS EOT is appended after the loop exactly when a macro codeword was seen"))
-    # FNC1 strip
-    fl = [s for s in sts if s[0] == "let" and s[1].split("#")[0] == "fnc1"]
-    ok = False
-    if fl:
-        e = fl[0][3]
-        ok = e[0] == "call" and e[1].endswith("::eq") or e[0] == "bin"
-        txt = T.sx_show(e, 300)
-        ok = ("Reader::peek" in txt or "peek(" in txt) and any(x[0] == "const" and x[1] == "encodation::ascii::FNC1" for x in T.sx_walk(e)) and any(x == ("lit", 0) for x in T.sx_walk(e))
-    strip = [s for s in sts if s[0] == "if" and s[1][:2] == ("var", "fnc1")]
-    ok2 = len(strip) == 1 and len([x for st in T.stmt_walk(strip[0][2]) for e in T.stmt_exprs(st) for x in T.sx_calls(e, "Reader::eat")]) == 1
-    obs.append(Ob(r, "fnc1-strip", ok and ok2 and f.const("encodation::ascii::FNC1") == 232, "a leading 232 (after an optional macro codeword) is stripped once"))
+    raw_stmts = b["body"].get("stmts", [])
+    k_loop = None
+    for k, st in enumerate(raw_stmts):
+        node = st.get("init") if st["k"] == "Let" else st.get("expr")
+        if node is not None and any(n.get("k") == "Loop" for n in T.walk(node)):
+            k_loop = k
+            break
+    need(k_loop is not None, r, fn, "(main loop)")
+    prefix, loop_st, suffix = raw_stmts[:k_loop], raw_stmts[k_loop], raw_stmts[k_loop + 1:]
+    need(not any(n.get("k") == "Loop" for st in prefix + suffix for n in T.walk(st)), r, fn, "(exactly one loop)")
+    # the macro codeword is only looked for before the main loop
+    peeks_in_loop = [c for c in T.calls(loop_st.get("expr") or loop_st.get("init")) if T.canon(T.callee_of(c)).endswith("Reader::peek")]
+    heads_late = [c for st in [loop_st] + suffix for c in T.calls(st.get("expr") or st.get("init") or {"k": "Tuple", "fields": []})
+                  if T.canon(T.callee_of(c)).endswith("extend_from_slice") and any(x[0] == "const" and x[2] in (HEAD05, HEAD06) for x in T.sx_walk(T.sx(c)))]
+    obs.append(Ob(r, "first-position", not peeks_in_loop and not heads_late, "the macro codeword is only looked for before the main loop; no header is produced later"))
+    pnames = [p_["pat"]["name"] for p_ in b["params"] if p_.get("pat", {}).get("k") == "Bind"]
+    need(len(pnames) == 2, r, fn, "(parameters data, raw)")
+    assigned_in_loop = {T.strip(n["lhs"]).get("name") for n in T.walk(loop_st.get("expr") or loop_st.get("init")) if n.get("k") in ("Assign", "AssignOp")}
+
+    def scenario(raw, stream, vec_empty):
+        st = {"pos": 0}
+        ev = []
+
+        def opt(v):
+            if v is None:
+                return {"__adt__": "core::option::Option", "__variant__": "None"}
+            return {"__adt__": "core::option::Option", "__variant__": "Some", "#0": v, "0": v}
+
+        def on_call(folder, c):
+            cc = T.canon(T.callee_of(c))
+            last = cc.split("::")[-1]
+            if cc.endswith("Reader::peek"):
+                i = folder.fold(c["args"][1])
+                p = st["pos"] + i
+                return opt(stream[p] if p < len(stream) else None)
+            if cc.endswith("Reader::eat"):
+                if st["pos"] < len(stream):
+                    v = stream[st["pos"]]
+                    st["pos"] += 1
+                    ev.append(("eat", v))
+                    return {"__adt__": "core::result::Result", "__variant__": "Ok", "#0": v, "0": v}
+                return {"__adt__": "core::result::Result", "__variant__": "Err", "#0": T.Token("UnexpectedEnd")}
+            if cc.endswith("Reader::is_empty"):
+                return st["pos"] >= len(stream)
+            if cc.endswith("Reader::len"):
+                return len(stream) - st["pos"]
+            if last == "extend_from_slice":
+                try:
+                    v = folder.fold(c["args"][1])
+                except T.Undecidable:
+                    v = "?"
+                ev.append(("extend", tuple(v) if isinstance(v, list) else v))
+                return None
+            if last == "is_empty" and "Vec" in cc:
+                return vec_empty
+            r0 = folder._builtin(c)
+            if r0 is not NotImplemented:
+                return r0
+            if cc.startswith("core::panicking"):
+                return NotImplemented
+            for a in c["args"]:
+                try:
+                    folder.fold(a)
+                except T.Undecidable:
+                    pass
+            return T.Token(last + "()")
+        fo = T.Folder(f, env={pnames[0]: T.Token("data"), pnames[1]: raw}, on_call=on_call, effects=True)
+        fo.exec_stmts(prefix)
+        pre = list(ev)
+        del ev[:]
+        for n in assigned_in_loop:
+            if n:
+                fo.env[n] = T.Token(n)
+        fo.exec_stmts(suffix)
+        if "expr" in b["body"]:
+            try:
+                fo.fold(b["body"]["expr"])
+            except T.Undecidable:
+                pass
+        return pre, list(ev)
+
+    bad = {"arm:236": None, "arm:237": None, "arm:other": None, "trailer-iff": None, "fnc1-strip": None}
+    n = 0
+    try:
+        for raw in (False, True):
+            for vec_empty in (False, True):
+                for first in (236, 237, 232, 65, None):
+                    for second in (232, 65, None):
+                        if first is None and second is not None:
+                            continue
+                        stream = [x for x in (first, second) if x is not None] + ([66] if second is not None else [])
+                        pre, post = scenario(raw, stream, vec_empty)
+                        n += 1
+                        is_macro = first in (236, 237)
+                        want_head = [HEAD05] if first == 236 else [HEAD06] if first == 237 else []
+                        nxt = second if is_macro else first
+                        want_eats = ([first] if is_macro else []) + ([232] if nxt == 232 else [])
+                        got_head = [e[1] for e in pre if e[0] == "extend"]
+                        got_eats = [e[1] for e in pre if e[0] == "eat"]
+                        key = "arm:%d" % first if is_macro else "arm:other"
+                        if got_head != want_head and bad[key] is None:
+                            bad[key] = "first codewords %r (raw=%s): the decoder emits %r before the main loop, expected %r" % (stream[:2], raw, got_head, want_head)
+                        if got_eats[:1] != want_eats[:1] and is_macro and bad[key] is None:
+                            bad[key] = "first codewords %r: consumed %r before the main loop, expected %r" % (stream[:2], got_eats, want_eats)
+                        if got_eats != want_eats and bad["fnc1-strip"] is None and (not is_macro or got_eats[:1] == want_eats[:1]):
+                            bad["fnc1-strip"] = "first codewords %r: consumed %r before the main loop, expected %r" % (stream[:2], got_eats, want_eats)
+                        got_trail = [e[1] for e in post if e[0] == "extend"]
+                        if got_trail != ([TRAIL] if is_macro else []) and bad["trailer-iff"] is None:
+                            bad["trailer-iff"] = "first codewords %r (raw=%s): after the main loop the decoder appends %r, expected %r" % (stream[:2], raw, got_trail, [TRAIL] if is_macro else [])
+    except (T.Undecidable, T.Trap) as ex:
+        for k in bad:
+            bad[k] = bad[k] or "cannot decide: the code around the main loop does not fold (%s)" % ex
+    for cw in (236, 237):
+        obs.append(Ob(r, "arm:%d" % cw, bad["arm:%d" % cw] is None, "codeword %d in first position re-creates its own header, consumes the codeword and requests the trailer" % cw, detail=bad["arm:%d" % cw]))
+    obs.append(Ob(r, "arm:other", bad["arm:other"] is None, "any other first codeword adds nothing", detail=bad["arm:other"]))
+    obs.append(Ob(r, "trailer-iff", bad["trailer-iff"] is None, "RS EOT is appended after the loop exactly when a macro codeword was seen", detail=bad["trailer-iff"]))
+    obs.append(Ob(r, "fnc1-strip", bad["fnc1-strip"] is None and f.const("encodation::ascii::FNC1") == 232, "a leading 232 (after an optional macro codeword) is stripped once, nothing else is consumed before the main loop", detail=bad["fnc1-strip"]))
+    obs.append(Ob(r, "scenarios", n >= 40, "%d combinations of leading codewords, raw flag and ECI-list state folded" % n))
     obs += floor(obs, r, 7, "decoder macro obligations")
     return obs
 
